@@ -108,32 +108,33 @@ type fnInfoT struct {
 var fnInfo = map[string]*fnInfoT{}
 
 type ctx struct {
-	info       *types.Info
-	pkg        *types.Package
-	spec       SpecFn
-	locals     map[string]types.Type // declared locals + params (scalar)
-	leaves     []string              // extra inputs in order of first appearance
-	leafTy     map[string]string
-	partial    bool
-	params     map[string]bool // names of Go parameters (any type)
-	known      map[string]*SpecFn
-	results    *types.Tuple
-	errs       map[string]bool
-	pending    []pend
-	nbind      int
-	opaqueK    []string                     // kinds of the opaque callee's arguments (result type of the translated function)
-	loopVal    map[string]string            // loop variables of loops being unrolled -> current constant value
-	iters      map[*ast.EmptyStmt]*iterInfo // continuation markers of unrolled loops
-	contCode   map[*ast.EmptyStmt]string    // continuation markers of range loops -> code of "next element"
-	nrange     int
-	leafSrc    map[string]leafInfo
-	alias      map[string]ast.Expr // opaque local -> the parameter-rooted expression it was defined as
-	oracleN    map[string]int      // per oracle name: calls seen so far
-	oracleSite map[token.Pos]int
-	opaqueL    map[string]bool // locals of unsupported type (usable only as arguments of oracle calls)
-	blocksL    map[string]bool // locals holding a list of descendant blocks
-	blockL     map[string]bool // locals holding ONE descendant block (&nom.AccountBlock{..}), bound to its (to, amount, token)
-	outF       []string        // Coq names of the out fields
+	info        *types.Info
+	pkg         *types.Package
+	spec        SpecFn
+	locals      map[string]types.Type // declared locals + params (scalar)
+	leaves      []string              // extra inputs in order of first appearance
+	leafTy      map[string]string
+	partial     bool
+	params      map[string]bool // names of Go parameters (any type)
+	known       map[string]*SpecFn
+	results     *types.Tuple
+	errs        map[string]bool
+	pending     []pend
+	nbind       int
+	opaqueK     []string                     // kinds of the opaque callee's arguments (result type of the translated function)
+	loopVal     map[string]string            // loop variables of loops being unrolled -> current constant value
+	iters       map[*ast.EmptyStmt]*iterInfo // continuation markers of unrolled loops
+	contCode    map[*ast.EmptyStmt]string    // continuation markers of range loops -> code of "next element"
+	nrange      int
+	leafSrc     map[string]leafInfo
+	alias       map[string]ast.Expr // opaque local -> the parameter-rooted expression it was defined as
+	oracleN     map[string]int      // per oracle name: calls seen so far
+	oracleSite  map[token.Pos]int
+	opaqueL     map[string]bool // locals of unsupported type (usable only as arguments of oracle calls)
+	blocksL     map[string]bool // locals holding a list of descendant blocks
+	rangePrefix string          // inside the body of a range loop: the prefix that makes an input a field of the element
+	blockL      map[string]bool // locals holding ONE descendant block (&nom.AccountBlock{..}), bound to its (to, amount, token)
+	outF        []string        // Coq names of the out fields
 }
 
 // one unrolled `for i := c0; i <cmp> c1; i++/i--` loop: after the body of iteration idx comes the marker, which starts
@@ -607,7 +608,7 @@ func (c *ctx) oracleResults(x *ast.CallExpr, name string) []string {
 			names = append(names, "") // outside the subset: may only be dropped or kept as an opaque local
 			continue
 		}
-		nm := fmt.Sprintf("%s_%d_%d", name, n, i)
+		nm := fmt.Sprintf("%s%s_%d_%d", c.rangePrefix, name, n, i) // inside a range body: a field of the element
 		if _, ok := c.leafTy[nm]; !ok {
 			c.leafTy[nm] = coqTy(k)
 			c.leaves = append(c.leaves, nm)
@@ -1901,7 +1902,13 @@ func (c *ctx) rangeStmt(x *ast.RangeStmt, rest []ast.Stmt) string {
 		bad(x.Pos(), "unsupported range loop (index is used)")
 	}
 	v, ok := x.Value.(*ast.Ident)
-	if !ok || !c.rootParam(x.X) {
+	isBlocksLocal := false
+	if id, isId := x.X.(*ast.Ident); isId && c.blocksL[id.Name] {
+		// a local list of descendant blocks: the loop runs over the parallel input <name>_items that holds, per block,
+		// what the body reads of it and the results of the oracle calls made for it
+		isBlocksLocal = true
+	}
+	if !ok || (!c.rootParam(x.X) && !isBlocksLocal) {
 		bad(x.Pos(), "unsupported range loop (the slice %s does not hang off a parameter)", exprString(x.X))
 	}
 	ast.Inspect(x.Body, func(n ast.Node) bool {
@@ -1936,7 +1943,10 @@ func (c *ctx) rangeStmt(x *ast.RangeStmt, rest []ast.Stmt) string {
 	hadP := c.params[v.Name]
 	c.params[v.Name] = true
 	before := len(c.leaves)
+	oldRP := c.rangePrefix
+	c.rangePrefix = prefix
 	body := c.stmts(append(append([]ast.Stmt{}, x.Body.List...), marker))
+	c.rangePrefix = oldRP
 	c.params[v.Name] = hadP
 	// the element's fields = the inputs first seen inside the body whose name starts with the element's name
 	var fields, ftys, keep []string
@@ -2111,6 +2121,12 @@ func (c *ctx) assign(x *ast.AssignStmt, rest []ast.Stmt) string {
 						bad(l.Pos(), "oracle result %d outside the subset assigned to %s", i, id.Name)
 					}
 					c.locals[id.Name] = t
+					if kindOf(t) == "blocks" {
+						if c.blocksL == nil {
+							c.blocksL = map[string]bool{}
+						}
+						c.blocksL[id.Name] = true
+					}
 					names = append(names, cn(id.Name))
 				}
 				body := c.stmts(rest)
